@@ -605,3 +605,7 @@ seed('c17-hybrid-cross-edge-unchecked', 'C17', [(PHYB, "    if (si_->checkMotion
 seed('c17-hybrid-cross-edge-wrong-vertex', 'C17', [(PHYB, "        boost::add_edge(p.vertices_[indexP], q.vertices_[indexQ], properties, g_);", "        boost::add_edge(p.vertices_[indexQ], q.vertices_[indexQ], properties, g_);")], 'R17e')
 seed('c17-hybrid-search-from-goal', 'C17', [(PHYB, "        g_, root_,\n        boost::predecessor_map(prev)", "        g_, goal_,\n        boost::predecessor_map(prev)")], 'R17e')
 seed('c17-n-hybrid-cost-fold-reordered', 'C17', [(PHYB, "        boost::add_edge(v0, v1, properties, g_);\n        cost = obj_->combineCosts(cost, weight);", "        cost = obj_->combineCosts(cost, weight);\n        boost::add_edge(v0, v1, properties, g_);")], None)
+seed('c13-n-components-swap-and-pop-with-step-back', 'C13', [(GRID, "                            --index;\n                            q.erase(q.begin() + index);", "                            --index;\n                            q[index] = q.back();\n                            q.pop_back();")], None)
+seed('c13-components-swap-and-pop-no-step-back', 'C13', [(GRID, "                            --index;\n                            q.erase(q.begin() + index);", "                            q[index - 1] = q.back();\n                            q.pop_back();")], 'R13e')
+seed('c12-update-epsilon-shortcut', 'C12', [(PDFH, "            const double weightChange = w - tree_.front()[index];\n", "            const double weightChange = w - tree_.front()[index];\n            if (weightChange < 1e-12 && weightChange > -1e-12)\n                return;\n")], 'R12e')
+seed('c12-n-update-exact-unchanged-shortcut', 'C12', [(PDFH, "            const double weightChange = w - tree_.front()[index];\n", "            const double weightChange = w - tree_.front()[index];\n            if (weightChange == 0.0)\n                return;\n")], None)
